@@ -1,5 +1,5 @@
 """Operators, calls and statements of the abstract interpreter (mixin)."""
-from .facts import AnalysisBroken, fn_body, fn_params, where
+from .facts import AnalysisBroken, fn_body, fn_params, where, walk
 from .terms import (C, ZERO, ONE, UNINIT, Dom, INF, Lin, lin_of, term_of_lin, is_const, mk_byte, mk_cat,
                     to_bytes, mk_sext, short)
 from .state import State, Unsupported
@@ -439,6 +439,10 @@ class Machine(Interp):
         self.functions_seen.add(name)
         params = fn_params(fn)
         body = fn_body(fn)
+        if name in self.recursive_fns:
+            tb = self.tail_loop(fn)
+            if tb is not None:
+                body = tb
         save_ix, save_fn = self.ix, self.fn
         self.ix, self.fn = ix, name
         depth = sum(1 for s in st.stack if s[0] == name)
@@ -482,6 +486,110 @@ class Machine(Interp):
         if len(res) > 1 and (fn.get('type') or {}).get('qualType', '').startswith('char ('):
             res = self._join_char_returns(res, rty)
         return [(s, c[1]) for s, c in res]
+
+    def tail_loop(self, fn):
+        """A function whose only calls of itself are tail calls (`f(st, n - 1);` as the last thing done, or
+        `return f(...)`) is the loop `for (;;) { body with each tail call replaced by {params = args; continue;} return; }`.
+        -> the synthetic body, or None when some self-call is not a tail call (the recursion cut applies then)."""
+        cache = self.__dict__.setdefault('_tail_loops', {})
+        key = fn.get('id')
+        if key in cache:
+            return cache[key]
+        cache[key] = None
+        body = fn_body(fn)
+        params = fn_params(fn)
+        name = fn['name']
+        if body is None or body.get('kind') != 'CompoundStmt':
+            return None
+
+        def strip(e):
+            while e.get('kind') in ('ImplicitCastExpr', 'ParenExpr', 'CStyleCastExpr') and e.get('inner'):
+                e = e['inner'][0]
+            return e
+
+        def is_self_call(e):
+            e = strip(e)
+            if e.get('kind') != 'CallExpr' or not e.get('inner'):
+                return None
+            c = strip(e['inner'][0])
+            if c.get('kind') == 'DeclRefExpr' and (c.get('referencedDecl') or {}).get('name') == name:
+                return e
+            return None
+
+        def count_calls(n):
+            return sum(1 for x in walk(n) if is_self_call(x) is not None and x.get('kind') == 'CallExpr')
+        total = count_calls(body)
+        if total == 0:
+            return None
+        replaced = [0]
+
+        def refers_to(e, pid):
+            return any(x.get('kind') == 'DeclRefExpr' and (x.get('referencedDecl') or {}).get('id') == pid for x in walk(e))
+
+        def replacement(call):
+            args = call['inner'][1:]
+            if len(args) != len(params):
+                return None
+            stmts = []
+            changed = []
+            for p, a in zip(params, args):
+                sa = strip(a)
+                if sa.get('kind') == 'DeclRefExpr' and (sa.get('referencedDecl') or {}).get('id') == p['id']:
+                    continue              # passed through unchanged
+                if any(refers_to(a, q) for q in changed):
+                    return None           # would need simultaneous assignment
+                changed.append(p['id'])
+                ref = {'kind': 'DeclRefExpr', 'type': p['type'], 'valueCategory': 'lvalue', 'range': call.get('range'),
+                       'referencedDecl': {'id': p['id'], 'kind': 'ParmVarDecl', 'name': p.get('name'), 'type': p['type']}}
+                stmts.append({'kind': 'BinaryOperator', 'opcode': '=', 'type': p['type'], 'valueCategory': 'prvalue',
+                              'range': call.get('range'), 'inner': [ref, a]})
+            stmts.append({'kind': 'ContinueStmt', 'range': call.get('range')})
+            return {'kind': 'CompoundStmt', 'range': call.get('range'), 'inner': stmts}
+
+        def tail(stmt):
+            """-> rewritten statement (stmt is in tail position)"""
+            k = stmt.get('kind')
+            if k == 'CompoundStmt':
+                inner = list(stmt.get('inner') or [])
+                idx = len(inner) - 1
+                if idx >= 1 and inner[idx].get('kind') == 'ReturnStmt' and not inner[idx].get('inner'):
+                    idx -= 1              # `f(...); return;`
+                if idx < 0:
+                    return stmt
+                new = tail(inner[idx])
+                if new is inner[idx]:
+                    return stmt
+                out = dict(stmt)
+                out['inner'] = inner[:idx] + [new] + inner[idx + 1:]
+                return out
+            if k == 'IfStmt':
+                inner = list(stmt.get('inner') or [])
+                out = dict(stmt)
+                out['inner'] = [inner[0]] + [tail(b) for b in inner[1:]]
+                return out if any(a is not b for a, b in zip(out['inner'], inner)) else stmt
+            if k == 'ReturnStmt' and stmt.get('inner'):
+                c = is_self_call(stmt['inner'][0])
+                if c is not None:
+                    r = replacement(c)
+                    if r is not None:
+                        replaced[0] += 1
+                        return r
+                return stmt
+            c = is_self_call(stmt) if k in ('CallExpr', 'ImplicitCastExpr', 'ParenExpr', 'CStyleCastExpr') else None
+            if c is not None:
+                r = replacement(c)
+                if r is not None:
+                    replaced[0] += 1
+                    return r
+            return stmt
+        nb = tail(body)
+        if replaced[0] != total or count_calls(nb) != 0:
+            return None
+        loop_body = dict(nb)
+        loop_body['inner'] = list(nb['inner']) + [{'kind': 'ReturnStmt', 'range': body.get('range')}]
+        loop = {'kind': 'ForStmt', 'range': body.get('range'), 'inner': [{}, {}, {}, {}, loop_body]}
+        cache[key] = {'kind': 'CompoundStmt', 'range': body.get('range'), 'inner': [loop]}
+        return cache[key]
 
     def _join_char_returns(self, res, rty):
         """A helper returning a plain `char` (a digit / character formatter) whose outcomes differ only in the character
@@ -600,6 +708,10 @@ class Machine(Interp):
 
     def s_ReturnStmt(self, st, s):
         inner = s.get('inner', [])
+        if getattr(self, 'recording_iteration', 0):
+            # (which `return` left a summarised loop stays visible: see the left-by-return tag)
+            st.tags = dict(st.tags)
+            st.tags['ret-site'] = where(s)
         if not inner:
             return [(st, ('return', None))]
         return [(s2, ('return', v)) for s2, v in self.rval(st, inner[0])]
